@@ -26,6 +26,9 @@ structure Spec where
   init : List (EDict × Bool)
   /-- performance metrics -/
   metrics : List EDict
+  /-- samples recorded on a second / third function of the script, if any -/
+  samples2 : List (PDict × PDict × EDict) := []
+  samples3 : List (PDict × PDict × EDict) := []
   deriving Repr
 
 /-- `tutorials.gradient_descent_contraction`: leaf points `x0 ↦ 0`, `y0 ↦ 1`, then the gradients in the order of the calls
@@ -48,5 +51,22 @@ def subg (γ : Coef) (n : Nat) : Spec :=
       (List.range (n + 1)).map (fun k => (subgX γ k, [(2 + k, 1)], [(EKey.f (1 + k), 1)])),
     init := [(EDict.subConst (PDict.sq (PDict.sub (subgX γ 0) [(0, 1)])) 1, false)],
     metrics := (List.range (n + 1)).map (fun k => EDict.sub [(EKey.f (1 + k), 1)] [(EKey.f 0, 1)]) }
+
+/-- `composite_convex_minimization.proximal_gradient`: `F = f1 + f2`; `x⋆ ↦ 0` is the stationary point of `F` (value leaf 0),
+`∇f1(x⋆) ↦ 1` (value leaf 1; the subgradient of `f2` there is `−∇f1(x⋆)`, its value `F⋆ − f1(x⋆)`), `x0 ↦ 2`; step `k`:
+`∇f1(x_k) ↦ 3+2k` (value leaf `2+2k`), then the proximal step creates the subgradient `s_{k+1} ↦ 4+2k` of `f2` at `x_{k+1}`
+(value leaf `3+2k`): `x_{k+1} = (x_k − γ ∇f1(x_k)) − γ s_{k+1}` -/
+def pgX (γ : Coef) : Nat → PDict
+  | 0 => [(2, 1)]
+  | k + 1 => stepPt (stepPt (pgX γ k) γ (3 + 2 * k)) γ (4 + 2 * k)
+
+def pg (γ : Coef) (n : Nat) : Spec :=
+  { samples := ([(0, 1)], [(1, 1)], [(EKey.f 1, 1)]) ::
+      (List.range n).map (fun k => (pgX γ k, [(3 + 2 * k, 1)], [(EKey.f (2 + 2 * k), 1)])),
+    samples2 := ([(0, 1)], [(1, -1)], [(EKey.f 0, 1), (EKey.f 1, -1)]) ::
+      (List.range n).map (fun k => (pgX γ (k + 1), [(4 + 2 * k, 1)], [(EKey.f (3 + 2 * k), 1)])),
+    samples3 := [([(0, 1)], [], [(EKey.f 0, 1)])],
+    init := [(EDict.subConst (PDict.sq (PDict.sub (pgX γ 0) [(0, 1)])) 1, false)],
+    metrics := [PDict.sq (PDict.sub (pgX γ n) [(0, 1)])] }
 
 end Pepit.Method
